@@ -154,17 +154,18 @@ def binding_selftest(c, binp):
     for x in cor[idx]["chk"]:
         if x["o"] == "rej":
             x["o"], x["v"] = "acc", fake
-    p2 = os.path.join(c.work, "self_corrupt.ndjson")
-    write_ndjson(p2, cor)
-    write_ndjson(p2 + ".side", side)
-    n, pvs, _ = validate_trace(c, p2, "selftest-corrupt")
-    if not any(x["l"] == idx + 1 for x in pvs):
-        c.fail_tool("binding self-test: a corrupted outcome (reject -> accept) was not reported by Trace_AddrText")
-    # adapter mutant
+    # adapter mutant: recorded into a second file, both judged in one TLC run
     p3 = os.path.join(c.work, "self_mutant.ndjson")
     rc, so = c.sh([binp, "record", p3, os.path.join(c.work, "self_mutant.json")], env={"VERIF_EDITS": 1500, "VERIF_SHORTS": 0, "VERIF_MUTANT": "trim"})
-    n, pvs, _ = validate_trace(c, p3, "selftest-mutant")
-    if not any(x["kind"] == "Unsound" and "_" in x["sig"] for x in pvs):
+    if rc != 0:
+        c.fail_tool("binding self-test: record (mutant) failed %s" % so[-300:])
+    p2 = os.path.join(c.work, "self_both.ndjson")
+    write_ndjson(p2, cor + read_ndjson(p3)[1:])
+    write_ndjson(p2 + ".side", side + read_ndjson(p3 + ".side")[1:])
+    n, pvs, _ = validate_trace(c, p2, "selftest")
+    if not any(x["l"] == idx + 1 for x in pvs):
+        c.fail_tool("binding self-test: a corrupted outcome (reject -> accept) was not reported by Trace_AddrText")
+    if not any(x["l"] > len(cor) and x["kind"] == "Unsound" and "_" in x["sig"] for x in pvs):
         c.drift("binding self-test: the trimming adapter mutant was not reported (does the code under test reject everything?)")
         return
     c.cov["binding_selftest"] = "corrupted outcome reported; trimming adapter mutant reported (%d lines)" % n
@@ -278,11 +279,20 @@ def run(c):
         traces.append((tr, "record/%s" % os.path.basename(b)))
         c.sample({"recorded": read_ndjson(tr + ".side")[len(read_ndjson(tr + ".side")) // 2]})
 
-    # ---- 4. trace validation ---------------------------------------------------------------------
+    # ---- 4. trace validation (all recorded files in ONE TLC run; line numbers are mapped back) ------
+    allp = os.path.join(c.work, "all_traces.ndjson")
+    lines, sides, origin = [{"ev": "meta", "spec": "AddrText"}], [{"ev": "meta"}], [None]
     for tr, label in traces:
-        n, pvs, drifts = validate_trace(c, tr, label)
-        c.cov["traces_validated_against_impl"] += n
+        ls = read_ndjson(tr)[1:]
+        lines += ls
+        sides += read_ndjson(tr + ".side")[1:]
+        origin += [label] * len(ls)
         if label.startswith("record"):
-            c.cov["evaluations"] += sum(len(l["chk"]) for l in read_ndjson(tr)[1:])
-        report(c, pvs, drifts, label)
+            c.cov["evaluations"] += sum(len(l["chk"]) for l in ls)
+    write_ndjson(allp, lines)
+    write_ndjson(allp + ".side", sides)
+    n, pvs, drifts = validate_trace(c, allp, "traces")
+    c.cov["traces_validated_against_impl"] += n
+    for label in sorted({o for o in origin if o}):
+        report(c, [x for x in pvs if origin[x["l"] - 1] == label], [x for x in drifts if origin[x["l"] - 1] == label], label)
     c.cov["distinct_nontrivial"] = nontrivial
